@@ -1,5 +1,7 @@
 """C18 - tabulated input is reproduced at its data points and is zero outside its range (DESIGN.md section 4, C18)."""
 import io
+
+import emit
 import math
 import random
 
@@ -175,11 +177,26 @@ def run_reader(case, ctx):
     rng.shuffle(order)
   nl = "\r\n" if case["crlf"] else "\n"
   lines = []
+  st = emit.Style(rng)
+  spellings = set()
+
+  def spell(v):
+    # numerals that denote exactly the same double: 0.5 | +0.5 | .5 | 5.0000000000000000e-01 | 0.50
+    t = st.num(float(v)) if case.get("spellings", True) else repr(v)
+    if t.startswith(".") or t.startswith("-.") or t.startswith("+."):
+      spellings.add("leading_dot")
+    elif t.startswith("+"):
+      spellings.add("plus_sign")
+    elif "e" in t.lower():
+      spellings.add("exponent")
+    return t
   for i, (a, b) in enumerate(order):
     if case["comments"] and rng.random() < 0.2:
       lines.append(rng.choice(["# a comment", "", "   ", "#%s %s" % (a + 0.5, b)]))
-    lines.append(rng.choice(["%s %s", "%s   %s", "  %s %s", "%s\t%s"]) % (repr(a), repr(b)) + (rng.choice(["", " ", "  "]) if i < len(order) - 1 or case["final_newline"] else ""))
+    lines.append(rng.choice(["%s %s", "%s   %s", "  %s %s", "%s\t%s"]) % (spell(a), spell(b)) + (rng.choice(["", " ", "  "]) if i < len(order) - 1 or case["final_newline"] else ""))
   text = nl.join(lines) + (nl if case["final_newline"] else "")
+  for sp_ in spellings:
+    ctx.cls("numeral:" + sp_)
   ctx.cls("final_newline" if case["final_newline"] else "no_final_newline")
   ctx.cls("crlf" if case["crlf"] else "lf")
   ctx.cls("shuffled" if case["shuffle"] else "sorted")
